@@ -117,7 +117,7 @@ func (w *World) evictBurst(in *Instance) {
 		if ops := w.liveParked(); len(ops) > 0 {
 			op := ops[0]
 			pp := op.Payload.(*pendingOp)
-			if op.Kind != "cache" {
+			if op.Kind != "cache" && op.Kind != "yield" {
 				w.apply(w.insts[op.Inst], op.Inc, op.Kind, op.Key, pp, true)
 			}
 			sim.Release(op, core.OutOK)
